@@ -198,6 +198,15 @@ def main(ctx):
                        "code's own answers, predicted breakpoints only place probes"]
     jobs = [{"seed": ctx.seed, "shard": s, "n": n} for s in range(nshards)]
     ctx.run_workers("vf.monitors.c05:shard", jobs)
+    # in real runs: every selection made by a lifting scheme goes to a unit with a strictly negative recorded derivative
+    from vf.monitors import suite
+    names = ["dipoles/dipole_factors_inside_first", "dipoles/dipole_factors_outside_first", "dipoles/dipole_factors_ratio",
+             "dipoles/dipole_motion", "water/coulomb_power_bounded_lj_inverted", "water/single_molecule"]
+    if not ctx.quick:
+        names += ["dipoles/cell_bounded", "dipoles/cell_veto", "water/coulomb_power_bounded_lj_cell_bounded"]
+    rj = suite.jobs_for(ctx, ("C05",), 0, ctx.pick(4000, 60000), ctx.pick(2000, 20000), 0, shipped=names, seeds=ctx.pick((0,), (0, 1)))
+    suite.run_suite(ctx, ("C05",), rj, timeout=ctx.pick(900, 3000))
+    ctx.require("in_run_lifting_selections", 500)
     ctx.require("tables_balanced_checked", 1000)
     ctx.require("tables_with_several_positive_units", 300)
     ctx.require("tables_with_zero_entries", 100)
